@@ -21,7 +21,14 @@
 //!     R4  (`measure_child_size`) a body that is the single expression `self.m(args).chain…` ⇒ `let out__ = self.m(args); out__.chain…`.
 //!     R5  `let x = E.into();` (immutable, `E` pure) ⇒ dropped, every later `x` reads `(E.into())` (the target type of `into` is known at the uses);
 //!     R6  `for x in P` with `P: &mut [T]` a parameter ⇒ `for x in P.iter_mut()`.
-//! `Props/TieFlexProg.lean` proves the generated programs equal to `toGen` of the `ProgM` programs of Model/Flex.lean.
+//!     R7  `let x = tree.m(args) OP rest;` ⇒ `let out__ = tree.m(args); let x = out__ OP rest;`.
+//!     R8  a parameter `p: &mut f32` / `&mut Size<f32>` of a function returning `()` is an in/out value (`p__in` by value, `let mut p = p__in;`,
+//!         `*p` is the local, the final values are returned);  R9  a call statement of an R8 function binds the returned values back.
+//!   * `for x in P.iter_mut().rev()` (blockmod.rs, additive): the same `for_mut` over `List.reverse P`, the updated list reversed back.
+//!   * `determine_container_main_size` is translated only in part: the arm of its `match` that measures the child, as a function of its own
+//!     (`content_arm`); of `compute_preliminary` only the hidden-children loop (`hidden_loop`). `calculate_flex_item`,
+//!     `calculate_layout_line`, `final_layout_pass` are translated whole.
+//! `Props/TieFlexProg.lean` and `Props/TieFlexProg2.lean` prove the generated programs equal to `toGen` of the `ProgM` programs of Model/Flex.lean.
 use crate::emit::{check_adt, impls, Out, Plan, PlanExt};
 use crate::lean::{Adt, AdtKind, Ty, Variant, World};
 use crate::util::{parse_file, CfgEnv};
@@ -30,7 +37,7 @@ use syn::visit::Visit;
 use syn::{Expr, ImplItem, Item, Pat, Stmt, TraitItem};
 
 pub const NS: &str = "Gen.FlexProg";
-pub const REQUIRED: &[&str] = &["FlexDirection.main_axis", "Size.get_abs", "AbsoluteAxis.into_requested", "measure_child_size", "determine_flex_base_size", "determine_hypothetical_cross_size", "calculate_children_base_lines"];
+pub const REQUIRED: &[&str] = &["FlexDirection.main_axis", "Size.get_abs", "AbsoluteAxis.into_requested", "measure_child_size", "determine_flex_base_size", "determine_hypothetical_cross_size", "calculate_children_base_lines", "calculate_flex_item", "calculate_layout_line", "final_layout_pass", "compute_preliminary_hidden_loop", "determine_container_main_size_content_arm"];
 
 fn toks<T: quote::ToTokens>(t: &T) -> String {
     quote::quote!(#t).to_string()
@@ -140,6 +147,13 @@ fn flatten_lets(stmts: &[Stmt], outer_later: &[Stmt]) -> Result<Vec<Stmt>, Strin
 }
 
 // the rewritings R1–R6 on a statement list (recursively inside `for` bodies): `desugar` below
+thread_local! {
+    /// functions rewritten by R8: name ↦ for every (cfg-enabled) parameter after the tree: is it an in/out value?
+    static INOUT_FNS: std::cell::RefCell<HashMap<String, Vec<bool>>> = std::cell::RefCell::new(HashMap::new());
+    /// the in/out parameters (R8) of the function being rewritten: passed on bare to another R8 function
+    static INOUT_LOCALS: std::cell::RefCell<Vec<String>> = std::cell::RefCell::new(vec![]);
+}
+
 thread_local! {
     /// the `&mut [T]` parameters of the function being rewritten (R6)
     static MUT_SLICES: std::cell::RefCell<Vec<String>> = std::cell::RefCell::new(vec![]);
@@ -291,6 +305,25 @@ fn desugar(stmts: &[Stmt], log: &mut Vec<String>) -> Result<Vec<Stmt>, String> {
                 out.extend(desugar(&nb.stmts, log)?);
                 return Ok(out);
             }
+            // R7: `let x = tree.m(args) OP rest;` ⇒ `let out__ = tree.m(args); let x = out__ OP rest;` (the left operand is evaluated first)
+            Stmt::Local(l) if r7_candidate(l).is_some() => {
+                let (call, op_rest) = r7_candidate(l).unwrap();
+                if idents_of(&stmts.iter().map(|s| toks(s)).collect::<Vec<_>>().join(" ").parse::<proc_macro2::TokenStream>().map_err(|e| e.to_string())?).contains(&"out__".to_string()) {
+                    return Err("R7: `out__` is not fresh".into());
+                }
+                let src = format!("{{ let out__ = {call}; let __p = out__ {op_rest}; }}");
+                let nb: syn::Block = syn::parse_str(&src).map_err(|e| format!("R7: {e}"))?;
+                let mut it = nb.stmts.into_iter();
+                out.push(it.next().unwrap());
+                match it.next() {
+                    Some(Stmt::Local(mut l2)) => {
+                        l2.pat = l.pat.clone();
+                        out.push(Stmt::Local(l2));
+                    }
+                    _ => return Err("R7: internal".into()),
+                }
+                log.push("R7 at a `let` whose initialiser starts with a call of the tree".to_string());
+            }
             // R4 inside `let x = OPT.unwrap_or_else(|| tree.m(..).chain…)`
             Stmt::Local(l) if r4_closure(l).is_some() => {
                 let l2 = r4_closure(l).unwrap()?;
@@ -374,6 +407,24 @@ fn r5_candidate(l: &syn::Local) -> Option<(String, Expr)> {
     }
 }
 
+fn r7_candidate(l: &syn::Local) -> Option<(String, String)> {
+    let init = l.init.as_ref()?;
+    if init.diverge.is_some() {
+        return None;
+    }
+    match &*init.expr {
+        Expr::Binary(b) => match &*b.left {
+            Expr::MethodCall(m) if matches!(&*m.receiver, Expr::Path(p) if p.path.is_ident("tree")) && !idents_of(&b.right).contains(&"tree".to_string()) => {
+                let op = &b.op;
+                let r = &b.right;
+                Some((toks(&*b.left), format!("{} ({})", quote::quote!(#op), toks(&**r))))
+            }
+            _ => None,
+        },
+        _ => None,
+    }
+}
+
 fn r4_closure(l: &syn::Local) -> Option<Result<syn::Local, String>> {
     let init = l.init.as_ref()?;
     let m = match &*init.expr {
@@ -433,6 +484,336 @@ fn hoist_tail_interaction(b: &syn::Block, tree: &str) -> Result<syn::Block, Stri
         return Err("R4: internal".into());
     }
     syn::parse_str(&format!("{{ let out__ = {call}; out__ {} }}", &all[call.len()..])).map_err(|e| format!("R4: {e}"))
+}
+
+/// the `_ => { … }` arm (no guard) of the one `match (min_main_size, style_preferred, max_main_size)` of `determine_container_main_size`
+struct FindArm {
+    found: Vec<syn::Block>,
+}
+impl<'ast> Visit<'ast> for FindArm {
+    fn visit_expr_match(&mut self, m: &'ast syn::ExprMatch) {
+        if toks(&*m.expr).replace(' ', "") == "(min_main_size,style_preferred,max_main_size)" {
+            if let Some(arm) = m.arms.last() {
+                if matches!(arm.pat, Pat::Wild(_)) && arm.guard.is_none() {
+                    if let Expr::Block(b) = &*arm.body {
+                        if b.label.is_none() {
+                            self.found.push(b.block.clone());
+                        }
+                    }
+                }
+            }
+        }
+        syn::visit::visit_expr_match(self, m);
+    }
+}
+
+/// the initialiser of the one immutable `let NAME = …;` of the function
+struct FindLet<'n> {
+    name: &'n str,
+    found: Vec<String>,
+}
+impl<'ast, 'n> Visit<'ast> for FindLet<'n> {
+    fn visit_local(&mut self, l: &'ast syn::Local) {
+        if let Pat::Ident(i) = &l.pat {
+            if i.ident == self.name && i.mutability.is_none() {
+                if let Some(init) = &l.init {
+                    self.found.push(toks(&*init.expr));
+                }
+            }
+        }
+        syn::visit::visit_local(self, l);
+    }
+}
+
+/// `determine_container_main_size`, the arm that measures the child: a function of (tree, constants, available_space, item) made of the
+/// `let`s of the enclosing function the arm reads (`dir`, `main_content_box_inset`, `style_min`, `style_max`: each declared exactly once,
+/// immutable, over `constants` / `item` only) followed by the arm's block
+fn content_arm(f: &syn::ItemFn) -> Result<syn::ItemFn, String> {
+    let mut fa = FindArm { found: vec![] };
+    fa.visit_block(&f.block);
+    if fa.found.len() != 1 {
+        return Err(format!("{} arms `_ => {{ … }}` of `match (min_main_size, style_preferred, max_main_size)` (expected 1)", fa.found.len()));
+    }
+    let arm = &fa.found[0];
+    let sig = crate::emit::norm(&f.sig.inputs);
+    if sig.trim_end_matches(',') != "tree:&mutimplLayoutFlexboxContainer,available_space:Size<AvailableSpace>,lines:&mut[FlexLine<'_>],constants:&mutAlgoConstants" {
+        return Err(format!("signature changed: `{sig}`"));
+    }
+    let mut pre = String::new();
+    for name in ["dir", "main_content_box_inset", "style_min", "style_max"] {
+        let mut fl = FindLet { name, found: vec![] };
+        fl.visit_block(&f.block);
+        if fl.found.len() != 1 {
+            return Err(format!("`let {name} = …;` occurs {} times (expected 1)", fl.found.len()));
+        }
+        let ids = idents_of(&fl.found[0].parse::<proc_macro2::TokenStream>().map_err(|e| e.to_string())?);
+        let allowed = ["constants", "item", "dir", "content_box_inset", "main_axis_sum", "min_size", "max_size", "main"];
+        if let Some(bad) = ids.iter().find(|i| !allowed.contains(&i.as_str())) {
+            return Err(format!("the initialiser of `{name}` mentions `{bad}`"));
+        }
+        pre.push_str(&format!("let {name} = {};\n", fl.found[0]));
+    }
+    // the arm must not write `item`, `constants`, `lines` (it is a value)
+    let mut sc = crate::loops::Scan::default();
+    for s in &arm.stmts {
+        sc.visit_stmt(s);
+    }
+    if sc.mut_borrow || sc.assigned.iter().any(|a| ["item", "constants", "lines", "available_space"].contains(&a.as_str())) {
+        return Err("the arm writes a variable of the enclosing function".into());
+    }
+    let body: String = arm.stmts.iter().map(|s| toks(s)).collect::<Vec<_>>().join(" ");
+    let src = format!("fn determine_container_main_size_content_arm(tree: &mut impl LayoutFlexboxContainer, constants: &AlgoConstants, available_space: Size<AvailableSpace>, item: &FlexItem) -> f32 {{ {pre} {body} }}");
+    syn::parse_str(&src).map_err(|e| format!("content arm: {e}"))
+}
+
+/// R8: a parameter `p: &mut T` with `T` a plain value type (`f32`, `Size<f32>`) of a function returning `()` is an in/out value: the
+/// parameter becomes `p__in: T`, the body starts with `let mut p = p__in;`, every `*p` reads / writes the local `p` (every occurrence of `p`
+/// in the body must be `*p` or `p.method(..)`, so the reference itself is never passed on), and the function returns the final value(s).
+/// cfg-gated parameters are kept / dropped by the build configuration.
+fn inout_params(f: &syn::ItemFn, env: &CfgEnv, log: &mut Vec<String>) -> Result<syn::ItemFn, String> {
+    let mut params: Vec<String> = vec![];
+    let mut outs: Vec<(String, String)> = vec![];
+    for a in &f.sig.inputs {
+        let t = match a {
+            syn::FnArg::Typed(t) => t,
+            _ => return Err("receiver".into()),
+        };
+        if !env.enabled(&t.attrs)? {
+            continue;
+        }
+        let n = match &*t.pat {
+            Pat::Ident(i) => i.ident.to_string(),
+            _ => return Err("parameter pattern".into()),
+        };
+        let ty = &t.ty;
+        match &**ty {
+            syn::Type::Reference(r) if r.mutability.is_some() && ["f32", "Size < f32 >"].contains(&toks(&*r.elem).as_str()) => {
+                let inner = toks(&*r.elem);
+                params.push(format!("{n}__in: {inner}"));
+                outs.push((n, inner));
+            }
+            _ => params.push(format!("{n}: {}", toks(&**ty))),
+        }
+    }
+    {
+        let mut kinds = vec![];
+        for a in f.sig.inputs.iter().skip(1) {
+            if let syn::FnArg::Typed(t) = a {
+                if !env.enabled(&t.attrs)? {
+                    continue;
+                }
+                let n = match &*t.pat {
+                    Pat::Ident(i) => i.ident.to_string(),
+                    _ => String::new(),
+                };
+                kinds.push(outs.iter().any(|o| o.0 == n));
+            }
+        }
+        INOUT_FNS.with(|m| m.borrow_mut().insert(f.sig.ident.to_string(), kinds));
+    }
+    INOUT_LOCALS.with(|m| *m.borrow_mut() = outs.iter().map(|o| o.0.clone()).collect());
+    if outs.is_empty() {
+        // no in/out parameter of its own: only the calls of R8 functions are rewritten (R9); cfg-gated parameters are resolved
+        let mut f2 = f.clone();
+        f2.block.stmts = r9_calls(&f.block.stmts, env, log)?;
+        let mut inputs = syn::punctuated::Punctuated::new();
+        for a in f.sig.inputs.iter() {
+            if let syn::FnArg::Typed(t) = a {
+                if !env.enabled(&t.attrs)? {
+                    continue;
+                }
+                let mut t2 = t.clone();
+                t2.attrs.clear();
+                inputs.push(syn::FnArg::Typed(t2));
+            }
+        }
+        f2.sig.inputs = inputs;
+        return Ok(f2);
+    }
+    if !matches!(f.sig.output, syn::ReturnType::Default) {
+        return Err("R8: the function returns a value".into());
+    }
+    let stmts9 = r9_calls(&f.block.stmts, env, log)?;
+    let mut body: proc_macro2::TokenStream = stmts9.iter().map(|s| quote::quote!(#s)).collect();
+    for (n, _) in &outs {
+        body = deref_to_local(body, n)?;
+    }
+    let pre: String = outs.iter().map(|(n, _)| format!("let mut {n} = {n}__in;")).collect::<Vec<_>>().join(" ");
+    let (tail, rty) = if outs.len() == 1 { (outs[0].0.clone(), outs[0].1.clone()) } else { (format!("({})", outs.iter().map(|o| o.0.clone()).collect::<Vec<_>>().join(", ")), format!("({})", outs.iter().map(|o| o.1.clone()).collect::<Vec<_>>().join(", "))) };
+    let name = &f.sig.ident;
+    let src = format!("fn {name}({}) -> {rty} {{ {pre} {body} {tail} }}", params.join(", "));
+    log.push(format!("R8 at the parameters {}", outs.iter().map(|o| format!("`{}`", o.0)).collect::<Vec<_>>().join(", ")));
+    syn::parse_str(&src).map_err(|e| format!("R8: {e}"))
+}
+
+/// R9: a call statement `g(tree, a1, …, an);` of a function rewritten by R8 ⇒ `let (o1__n, …) = g(tree, a1', …); o1 = o1__n; …` — at an
+/// in/out position the argument `&mut x` (a local) or `x` (an in/out parameter of the enclosing function, passed on) becomes `*x` resp. `x`
+/// read by value and is assigned the returned final value; cfg-gated arguments are kept / dropped by the build configuration; a bare
+/// argument that is the loop variable of the enclosing `iter_mut()` loop at a `&mut` struct position is the place it refers to (`&mut x`).
+fn r9_calls(stmts: &[Stmt], env: &CfgEnv, log: &mut Vec<String>) -> Result<Vec<Stmt>, String> {
+    r9_in(stmts, env, log, &[])
+}
+fn r9_in(stmts: &[Stmt], env: &CfgEnv, log: &mut Vec<String>, loop_vars: &[String]) -> Result<Vec<Stmt>, String> {
+    let mut out = vec![];
+    for s in stmts {
+        match s {
+            Stmt::Expr(Expr::ForLoop(f), semi) => {
+                let mut f2 = f.clone();
+                let mut lv = loop_vars.to_vec();
+                if let Pat::Ident(i) = &*f.pat {
+                    if toks(&*f.expr).contains("iter_mut") {
+                        lv.push(i.ident.to_string());
+                    }
+                }
+                f2.body.stmts = r9_in(&f.body.stmts, env, log, &lv)?;
+                out.push(Stmt::Expr(Expr::ForLoop(f2), *semi));
+            }
+            Stmt::Expr(Expr::If(i), semi) => {
+                let mut i2 = i.clone();
+                i2.then_branch.stmts = r9_in(&i.then_branch.stmts, env, log, loop_vars)?;
+                if let Some((_, eb)) = &mut i2.else_branch {
+                    if let Expr::Block(b) = &mut **eb {
+                        b.block.stmts = r9_in(&b.block.stmts.clone(), env, log, loop_vars)?;
+                    }
+                }
+                out.push(Stmt::Expr(Expr::If(i2), *semi));
+            }
+            Stmt::Expr(Expr::Call(c), Some(_)) => {
+                let name = match &*c.func {
+                    Expr::Path(p) => p.path.get_ident().map(|i| i.to_string()),
+                    _ => None,
+                };
+                let kinds = name.as_ref().and_then(|n| INOUT_FNS.with(|m| m.borrow().get(n).cloned()));
+                let (name, kinds) = match (name, kinds) {
+                    (Some(n), Some(k)) => (n, k),
+                    _ => {
+                        out.push(s.clone());
+                        continue;
+                    }
+                };
+                let mut args: Vec<Expr> = vec![];
+                for a in &c.args {
+                    if env.enabled(crate::expr::expr_attrs_pub(a))? {
+                        let mut a2 = a.clone();
+                        strip_attrs(&mut a2);
+                        args.push(a2);
+                    }
+                }
+                if args.len() != kinds.len() + 1 || toks(&args[0]) != "tree" {
+                    return Err(format!("R9: arity of the call of `{name}`"));
+                }
+                let mut new_args = vec!["tree".to_string()];
+                let mut outs: Vec<String> = vec![];
+                for (a, io) in args[1..].iter().zip(&kinds) {
+                    if *io {
+                        let x = match a {
+                            Expr::Reference(r) if r.mutability.is_some() => match &*r.expr {
+                                Expr::Path(p) if p.path.get_ident().is_some() => p.path.get_ident().unwrap().to_string(),
+                                _ => return Err(format!("R9: in/out argument `{}` of `{name}`", toks(a))),
+                            },
+                            Expr::Path(p) if p.path.get_ident().map(|i| INOUT_LOCALS.with(|m| m.borrow().contains(&i.to_string()))).unwrap_or(false) => {
+                                // an in/out parameter passed on: written `*x` so that R8's check of the enclosing function accepts it
+                                let x = p.path.get_ident().unwrap().to_string();
+                                new_args.push(format!("*{x}"));
+                                outs.push(format!("*{x}"));
+                                continue;
+                            }
+                            _ => return Err(format!("R9: in/out argument `{}` of `{name}`", toks(a))),
+                        };
+                        new_args.push(x.clone());
+                        outs.push(x);
+                    } else {
+                        match a {
+                            Expr::Path(p) if p.path.get_ident().map(|i| loop_vars.contains(&i.to_string())).unwrap_or(false) => new_args.push(format!("&mut {}", toks(a))),
+                            _ => new_args.push(toks(a)),
+                        }
+                    }
+                }
+                let tmp: Vec<String> = (0..outs.len()).map(|k| format!("io{}__n", k + 1)).collect();
+                let pat = if tmp.len() == 1 { tmp[0].clone() } else { format!("({})", tmp.join(", ")) };
+                let assigns: String = outs.iter().zip(&tmp).map(|(o, t)| format!("{o} = {t};")).collect::<Vec<_>>().join(" ");
+                let src = format!("{{ let {pat} = {name}({}); {assigns} }}", new_args.join(", "));
+                let nb: syn::Block = syn::parse_str(&src).map_err(|e| format!("R9: {e}"))?;
+                out.extend(nb.stmts);
+                log.push(format!("R9 at a call of `{name}`"));
+            }
+            _ => out.push(s.clone()),
+        }
+    }
+    Ok(out)
+}
+
+fn strip_attrs(e: &mut Expr) {
+    match e {
+        Expr::Path(p) => p.attrs.clear(),
+        Expr::Reference(r) => r.attrs.clear(),
+        Expr::Unary(u) => u.attrs.clear(),
+        Expr::Field(f) => f.attrs.clear(),
+        Expr::MethodCall(m) => m.attrs.clear(),
+        _ => {}
+    }
+}
+
+/// `*p` ⇒ `p`; any other occurrence of `p` must be followed by `.` (a method call through the reference)
+fn deref_to_local(ts: proc_macro2::TokenStream, p: &str) -> Result<proc_macro2::TokenStream, String> {
+    let v: Vec<proc_macro2::TokenTree> = ts.into_iter().collect();
+    let mut out: Vec<proc_macro2::TokenTree> = vec![];
+    let mut k = 0;
+    while k < v.len() {
+        match &v[k] {
+            proc_macro2::TokenTree::Punct(pp) if pp.as_char() == '*' && matches!(v.get(k + 1), Some(proc_macro2::TokenTree::Ident(i)) if i == p) && !(matches!(out.last(), Some(proc_macro2::TokenTree::Ident(_)) | Some(proc_macro2::TokenTree::Literal(_))) || matches!(out.last(), Some(proc_macro2::TokenTree::Group(g)) if g.delimiter() != proc_macro2::Delimiter::Brace)) => {
+                out.push(v[k + 1].clone());
+                k += 2;
+            }
+            proc_macro2::TokenTree::Ident(i) if i == p => {
+                let after_dot = matches!(out.last(), Some(proc_macro2::TokenTree::Punct(q)) if q.as_char() == '.');
+                let before_dot = matches!(v.get(k + 1), Some(proc_macro2::TokenTree::Punct(q)) if q.as_char() == '.');
+                if !after_dot && !before_dot {
+                    return Err(format!("R8: `{p}` is used other than as `*{p}` / `{p}.method(..)`"));
+                }
+                out.push(v[k].clone());
+                k += 1;
+            }
+            proc_macro2::TokenTree::Group(g) => {
+                let mut g2 = proc_macro2::Group::new(g.delimiter(), deref_to_local(g.stream(), p)?);
+                g2.set_span(g.span());
+                out.push(proc_macro2::TokenTree::Group(g2));
+                k += 1;
+            }
+            t => {
+                out.push(t.clone());
+                k += 1;
+            }
+        }
+    }
+    Ok(out.into_iter().collect())
+}
+
+/// `compute_preliminary`, the hidden-children loop: the two consecutive top-level statements `let len = tree.child_count(node);` and
+/// `for order in 0..len { … }` as a function of (tree, node); the loop must write no variable of the enclosing function
+fn hidden_loop(f: &syn::ItemFn) -> Result<syn::ItemFn, String> {
+    let st = &f.block.stmts;
+    let pos: Vec<usize> = (0..st.len()).filter(|k| matches!(&st[*k], Stmt::Expr(Expr::ForLoop(fl), _) if toks(&*fl.pat) == "order" && toks(&*fl.expr).replace(' ', "") == "0..len")).collect();
+    if pos.len() != 1 || pos[0] == 0 {
+        return Err(format!("{} top-level loops `for order in 0..len` (expected 1)", pos.len()));
+    }
+    let k = pos[0];
+    // the statement before it (debug_log! lines aside) must be the declaration of `len`
+    let mut j = k - 1;
+    while j > 0 && matches!(&st[j], Stmt::Macro(_)) {
+        j -= 1;
+    }
+    if toks(&st[j]).replace(' ', "") != "letlen=tree.child_count(node);" {
+        return Err(format!("the statement before the loop is `{}`", toks(&st[j])));
+    }
+    let mut sc = crate::loops::Scan::default();
+    sc.visit_stmt(&st[k]);
+    let written: Vec<String> = sc.outer_assigned().into_iter().filter(|v| v != "tree").collect();
+    if sc.mut_borrow || !written.is_empty() {
+        return Err(format!("the loop writes {:?}", written));
+    }
+    let src = format!("fn compute_preliminary_hidden_loop(tree: &mut impl LayoutFlexboxContainer, node: NodeId) {{ {} {} }}", toks(&st[j]), toks(&st[k]));
+    syn::parse_str(&src).map_err(|e| format!("hidden loop: {e}"))
 }
 
 fn find_fn<'f>(items: &'f [Item], name: &str) -> Option<&'f syn::ItemFn> {
@@ -611,6 +992,80 @@ pub fn extract(repo: &str, w: &mut World) -> Result<String, String> {
             }
             _ => out.errors.push(format!("required function `{name}` is missing from the source")),
         }
+    }
+    // ---- calculate_flex_item (R8: its `&mut f32` / `&mut Size<f32>` parameters are in/out values)
+    {
+    match find_fn(&file.items, "calculate_flex_item") {
+        Some(f) if env.enabled(&f.attrs)? => {
+            let mut log = vec![];
+            match inout_params(f, &env, &mut log).and_then(|f2| {
+                MUT_SLICES.with(|m| m.borrow_mut().clear());
+                let stmts = desugar(&f2.block.stmts, &mut log)?;
+                let mut f3 = f2.clone();
+                f3.block.stmts = stmts;
+                Ok(f3)
+            }) {
+                Ok(f3) => {
+                    let doc = format!("; rewritten before translation: {}", log.join(", "));
+                    crate::blockmod::prog_fn(&mut out, w, &f3, &base, &doc, NS);
+                }
+                Err(e) => out.errors.push(format!("required function `calculate_flex_item` is outside the translated fragment: {e}")),
+            }
+        }
+        _ => out.errors.push("required function `calculate_flex_item` is missing from the source".into()),
+    }
+    }
+    {
+        for name in ["calculate_layout_line", "final_layout_pass"] {
+            match find_fn(&file.items, name) {
+                Some(f) if env.enabled(&f.attrs)? => {
+                    let mut log = vec![];
+                    match inout_params(f, &env, &mut log).and_then(|f2| {
+                        MUT_SLICES.with(|m| m.borrow_mut().clear());
+                        let stmts = desugar(&f2.block.stmts, &mut log)?;
+                        let mut f3 = f2.clone();
+                        f3.block.stmts = stmts;
+                        Ok(f3)
+                    }) {
+                        Ok(f3) => {
+                            let doc = format!("; rewritten before translation: {}", log.join(", "));
+                            crate::blockmod::prog_fn(&mut out, w, &f3, &base, &doc, NS);
+                        }
+                        Err(e) => out.errors.push(format!("required function `{name}` is outside the translated fragment: {e}")),
+                    }
+                }
+                _ => out.errors.push(format!("required function `{name}` is missing from the source")),
+            }
+        }
+    }
+    // ---- compute_preliminary: the hidden-children loop (the rest of the function is not translated)
+    match find_fn(&file.items, "compute_preliminary") {
+        Some(f) if env.enabled(&f.attrs)? => match hidden_loop(f) {
+            Ok(f2) => {
+                let doc = ": the statements `let len = tree.child_count(node);` and `for order in 0..len { … }` (the hidden-children loop) of `compute_preliminary` as a function of (tree, node); the rest of `compute_preliminary` is NOT translated";
+                crate::blockmod::prog_fn(&mut out, w, &f2, &base, doc, NS);
+            }
+            Err(e) => out.errors.push(format!("required function `compute_preliminary_hidden_loop` is outside the translated fragment: {e}")),
+        },
+        _ => out.errors.push("required function `compute_preliminary` is missing from the source".into()),
+    }
+    // ---- determine_container_main_size: the arm that measures the child (the rest of the function is not translated)
+    match find_fn(&file.items, "determine_container_main_size") {
+        Some(f) if env.enabled(&f.attrs)? => match content_arm(f).and_then(|f2| {
+            let mut log = vec![];
+            MUT_SLICES.with(|m| m.borrow_mut().clear());
+            let stmts = desugar(&f2.block.stmts, &mut log)?;
+            let mut f3 = f2.clone();
+            f3.block.stmts = stmts;
+            Ok((f3, log))
+        }) {
+            Ok((f3, log)) => {
+                let doc = format!(": the `_ => {{ … }}` arm of `match (min_main_size, style_preferred, max_main_size)` of `determine_container_main_size` (the arm that measures the child) as a function of (constants, available_space, item), preceded by the `let`s of the enclosing function it reads (`dir`, `main_content_box_inset`, `style_min`, `style_max`); the rest of `determine_container_main_size` is NOT translated; rewritten before translation: {}", log.join(", "));
+                crate::blockmod::prog_fn(&mut out, w, &f3, &base, &doc, NS);
+            }
+            Err(e) => out.errors.push(format!("required function `determine_container_main_size_content_arm` is outside the translated fragment: {e}")),
+        },
+        _ => out.errors.push("required function `determine_container_main_size` is missing from the source".into()),
     }
     out.finish(REQUIRED)
 }
